@@ -8,7 +8,7 @@ BUILD = os.path.join(VERIF, "_build")
 REPO_BUILD = os.path.join(BUILD, "repo" if REPO == "/repo" else "repo-" + hashlib.md5(REPO.encode()).hexdigest()[:8])
 COQ = os.path.join(VERIF, "coq")
 EXTRACT = os.path.join(BUILD, "extract")
-DRV = os.path.join(BUILD, "drv")
+DRV = os.path.join(BUILD, "drv" if REPO == "/repo" else "drv-" + hashlib.md5(REPO.encode()).hexdigest()[:8])   # per tree: an exe linked against another tree's library must never be reused
 QPDF = os.path.join(REPO_BUILD, "qpdf", "qpdf")
 FIXQDF = os.path.join(REPO_BUILD, "qpdf", "fix-qdf")
 LIBQPDF = os.path.join(REPO_BUILD, "libqpdf", "libqpdf.a")
